@@ -17,7 +17,7 @@ EXPLANATION = (
     "independent by C07.1) before any ordered sink (Vec collect/push, CBORCase::Array); remaining ordered flows need a table entry "
     "with a reason. Does not decide equality of dCBOR encodings for equal leaf values of each type.")
 TRUSTED = ['dcbor::Map / dcbor::Set iterate in key-encoding order', 'sort* sorts']
-FLOORS = {'C07.1': 4, 'C07.2': 4, 'C07.3': 2, 'C07.4': 4}
+FLOORS = {'C07.1': 4, 'C07.2': 4, 'C07.3': 2, 'C07.4': 4, 'C07.1/C04.5': 3, 'C07.1/C04.3': 2, 'C07.1/C01.2/node': 1}
 P1 = ('param', 1)
 
 # ordered flows that are benign, each with a reason (exact key: function role + source)
@@ -55,6 +55,10 @@ class Relabel:
     def lost(self, inst, what):
         if self._keep(inst):
             self.ctx.lost(self.prefix + '/' + inst, what)
+    @property
+    def results(self):
+        pre = self.prefix + '/'
+        return [dict(r, inst=r['inst'][len(pre):]) for r in self.ctx.results if r['inst'].startswith(pre)]
 
 
 def check(ctx):
